@@ -73,15 +73,17 @@ Proof. exact answer_ok_equiv. Qed.
 Definition ex_cfg : cfg := mkCfg 1000 100000 [0; 1].
 Definition io (i t v : Z) : acc := (i, mkS t v, false).
 Definition oo (i t v : Z) : acc := (i, mkS t v, true).
-Definition lg (l : list acc) : list (sid * sample) := map (fun a => (fst (fst a), snd (fst a))) l.
-Definition cm (l : list acc) : op :=
-  Commit l (lg l) (match l with a :: _ => Some (st (snd (fst a))) | [] => None end).
+Definition lg (l : list acc) : list (sid * option sample) := map (fun a => (fst (fst a), Some (snd (fst a)))) l.
+(* cmc created l: an appender that created the series [created] and stored the samples l *)
+Definition cmc (created : list sid) (l : list acc) : op :=
+  Commit l (map (fun i => (i, None)) created ++ lg l) (match l with a :: _ => Some (st (snd (fst a))) | [] => None end).
+Definition cm := cmc [].
 
 (* in-order data in two series, an out-of-order sample, a head compaction (two blocks, negative
    and positive times), an out-of-order compaction, a Delete across head and blocks that does
    not touch out-of-order head data, tombstone cleaning *)
 Definition ex_ops : list op :=
-  [ cm [io 0 (-1500) 1; io 1 150 2]; cm [io 0 900 3; io 1 950 4]; cm [oo 1 400 5];
+  [ cmc [0; 1] [io 0 (-1500) 1; io 1 150 2]; cm [io 0 900 3; io 1 950 4]; cm [oo 1 400 5];
     CompactOOO; cm [io 0 1700 6; io 1 1800 7]; cm [io 0 2700 8]; Compact;
     Delete 120 1750 [0; 1]; CleanTombstones; cm [io 1 2800 9] ].
 
@@ -121,7 +123,7 @@ Definition cfg2 : cfg := mkCfg 1000 100000 [0; 1].
    tombstones (OOOCompactionHead.Tombstones is empty) and truncateOOO keeps the tombstone only in
    the head: the deleted sample (150) is returned again after CompactOOOHead *)
 Definition ops_f1 : list op :=
-  [cm [io 0 100 1]; cm [io 0 200 2]; cm [io 0 300 3]; cm [oo 0 150 4]; Delete 120 180 [0]; CompactOOO].
+  [cmc [0] [io 0 100 1]; cm [io 0 200 2]; cm [io 0 300 3]; cm [oo 0 150 4]; Delete 120 180 [0]; CompactOOO].
 Theorem C01_refuted_delete_then_ooo_compaction : ~ full_statement.
 Proof. refute cfg1 ops_f1 [0]. Qed.
 Example C01_f1_detail :
@@ -132,7 +134,7 @@ Proof. vm_compute. auto. Qed.
 (* F2: Head.Delete clamps to the head's and the series' IN-ORDER range: an out-of-order head
    sample (400) below it is not deleted by Delete(0, 2000) *)
 Definition ops_f2 : list op :=
-  [cm [io 0 1000 1]; cm [io 1 500 2]; cm [oo 1 400 3]; Delete 0 2000 [1]].
+  [cmc [0] [io 0 1000 1]; cmc [1] [io 1 500 2]; cm [oo 1 400 3]; Delete 0 2000 [1]].
 Theorem C01_refuted_delete_skips_ooo_sample : ~ full_statement.
 Proof. refute cfg2 ops_f2 [0; 1]. Qed.
 Example C01_f2_detail :
@@ -143,14 +145,14 @@ Proof. vm_compute. auto. Qed.
 (* F3: an out-of-order sample acknowledged AFTER a Delete, at a timestamp the older head
    tombstone covers, is hidden while it is in the head *)
 Definition ops_f3 : list op :=
-  [cm [io 0 100 1]; cm [io 0 200 2]; cm [io 0 300 3]; Delete 120 250 [0]; cm [oo 0 180 9]].
+  [cmc [0] [io 0 100 1]; cm [io 0 200 2]; cm [io 0 300 3]; Delete 120 250 [0]; cm [oo 0 180 9]].
 Theorem C01_refuted_ooo_append_under_tombstone : ~ full_statement.
 Proof. refute cfg1 ops_f3 [0]. Qed.
 
 (* F4: after CompactOOOHead the m-mapped out-of-order chunk is still on disk; a restart loads it
    again, so a sample deleted in the out-of-order block (150) comes back *)
 Definition ops_f4 : list op :=
-  [cm [io 0 300 1]; cm [oo 0 150 2]; CompactOOO; Delete 140 160 [0]; Restart [(0, [mkS 150 2])]].
+  [cmc [0] [io 0 300 1]; cm [oo 0 150 2]; CompactOOO; Delete 140 160 [0]; Restart [(0, [mkS 150 2])]].
 Theorem C01_refuted_restart_reloads_ooo_chunk : ~ full_statement.
 Proof. refute cfg1 ops_f4 [0]. Qed.
 
@@ -158,7 +160,7 @@ Proof. refute cfg1 ops_f4 [0]. Qed.
    restart computes a lower minValidTime and replays the deleted samples (100, 200) from the WAL *)
 Definition cfg5 : cfg := mkCfg 1000 0 [0].
 Definition ops_f5 : list op :=
-  [cm [io 0 100 1]; cm [io 0 200 2]; cm [io 0 1700 3]; Compact; Delete 0 999 [0]; CleanTombstones; Restart []].
+  [cmc [0] [io 0 100 1]; cm [io 0 200 2]; cm [io 0 1700 3]; Compact; Delete 0 999 [0]; CleanTombstones; Restart []].
 Theorem C01_refuted_restart_replays_wal : ~ full_statement.
 Proof. refute cfg5 ops_f5 [0]. Qed.
 Example C01_f5_detail :
